@@ -1,0 +1,14 @@
+//go:build verif
+
+package commitlog
+
+// CrashHook, when set, is called with the name of every crash point reached.
+// A verification harness uses it to stop an operation between two of its
+// file-system effects (by panicking) and then reopens the log directory.
+var CrashHook func(point string)
+
+func crashPoint(point string) {
+	if CrashHook != nil {
+		CrashHook(point)
+	}
+}
